@@ -218,6 +218,7 @@ func (l *Listener) Accept() (net.Conn, error) {
 }
 
 func (l *Listener) Close() error {
+	simrt.Serialize("net.lclose", "L"+l.addr.s+"x")
 	l.n.mu.Lock()
 	if l.closed {
 		l.n.mu.Unlock()
@@ -653,6 +654,7 @@ func (lk *Link) Cut(kind CutKind) {
 // Close closes this end: the peer reads EOF after the bytes already sent, and the peer's
 // later writes are lost, then fail.
 func (c *Conn) Close() error {
+	simrt.Serialize("net.close", c.hint()+"x")
 	n := c.link.net
 	n.mu.Lock()
 	if c.closed {
@@ -851,3 +853,19 @@ var _ net.Conn = (*Conn)(nil)
 var _ net.Listener = (*Listener)(nil)
 var _ = errors.New
 var _ = fmt.Sprintf
+
+// Inject puts bytes into this direction as if the writing side had sent them (a corrupting
+// middlebox or a misbehaving peer below the protocol layer).
+func (d *Dir) Inject(b []byte) {
+	n := d.link.net
+	n.mu.Lock()
+	defer n.mu.Unlock()
+	if d.rst || d.fin {
+		return
+	}
+	data := append([]byte(nil), b...)
+	d.inflight = append(d.inflight, chunk{data, time.Now()})
+	d.inflightN += len(data)
+	n.stat("injected-bytes")
+	d.pumpLocked(time.Now())
+}
